@@ -228,7 +228,7 @@ func StartUpstream(kind, tag, ip string, port int, tlsCfg *tls.Config, h Handler
 			return nil, err
 		}
 		u.Port = pc.LocalAddr().(*net.UDPAddr).Port
-		srv := &http3.Server{Handler: http.HandlerFunc(func(w http.ResponseWriter, r *http.Request) { u.serveHTTP(w, r, "h3") }), TLSConfig: http3.ConfigureTLSConfig(tlsCfg.Clone())}
+		srv := &http3.Server{Handler: http.HandlerFunc(func(w http.ResponseWriter, r *http.Request) { u.serveHTTP(w, r, "h3") }), TLSConfig: http3.ConfigureTLSConfig(tlsCfg.Clone()), QuicConfig: &quic.Config{MaxIncomingStreams: 100000}}
 		addClose(pc)
 		addClose(srv)
 		go srv.Serve(pc)
@@ -240,7 +240,7 @@ func StartUpstream(kind, tag, ip string, port int, tlsCfg *tls.Config, h Handler
 		u.Port = pc.LocalAddr().(*net.UDPAddr).Port
 		cfg := tlsCfg.Clone()
 		cfg.NextProtos = []string{"doq"}
-		ql, err := quic.Listen(pc, cfg, &quic.Config{MaxIdleTimeout: 30 * time.Second})
+		ql, err := quic.Listen(pc, cfg, &quic.Config{MaxIdleTimeout: 30 * time.Second, MaxIncomingStreams: 100000})
 		if err != nil {
 			pc.Close()
 			return nil, err
